@@ -40,6 +40,155 @@ def _element_dicts(run, fn, ctor_name):
     return out
 
 
+def _envelope_walk(run):
+    """R3e: the SGX quote envelope is taken apart at consecutive offsets."""
+    P, A = run.P, run.A
+    from sa.decide import Walker, cmp_parts, completions
+    from sa.canon import canon_sums
+    run.rule("R3e", "Envelope walk: SgxEnvelope parses the fixed part at the given offset o, the QE authentication data at o1 = o + (size of the fixed part), the QE "
+             "certification data at o2 = o1 + (total size of the authentication data), and accepts only when envelope[o2 + (total size of the certification data):] is "
+             "the separately fetched custom message (the only refusal); it stores the two parsed parts and that message. The variable-size parts read data = "
+             "value[h : h + size] with h = offset + (size of their header), accept only when all `size` bytes are there, and report header + len(data) as their total size.")
+    EN = P.cls("sgx.envelope.SgxEnvelope")
+    ini = P.method(EN, "__init__")
+    g = A.cfg(ini, EN)
+    envp, cmp_, offp, litp = ini.params[1], ini.params[2], ini.params[3], ini.params[4]
+
+    def cs(t):
+        return _strip(canon_sums(t))
+    from sa.decide import subst
+    state = {"W": None, "tail": None}
+
+    def resolve(e):
+        b = state["W"]._bind or {}
+        for _ in range(8):
+            nm_ = {x.id for x in ast.walk(e) if isinstance(x, ast.Name)}
+            hit = {k: v for k, v in b.items() if k in nm_}
+            if not hit:
+                break
+            e = subst(e, hit)
+        return e
+
+    def atom(e):
+        cp = cmp_parts(e)
+        if cp is None:
+            return None
+        l, op, r = cp
+        l = resolve(l)
+        if op in ("==", "!=") and norm(r) == cmp_ and isinstance(l, ast.Subscript) and isinstance(l.slice, ast.Slice) and norm(l.value) == envp \
+                and l.slice.upper is None and l.slice.step is None and l.slice.lower is not None:
+            state["tail"] = l.slice.lower
+            return ("TAIL", op == "==")
+        return None
+    n = 0
+    W = Walker(A, ini, EN, atom, max_leaves=32)
+    state["W"] = W
+    for lf in W.walk(g.entry):
+        n += 1
+        where = ini.loc(lf.node.ast) if lf.node.ast is not None else ini.loc()
+        unknown = sorted(k[1:] for k in lf.pc if isinstance(k, str) and k.startswith("?"))
+        run.check("R3e", not unknown, "the envelope is refused for a wrong custom message only", key=f"SgxEnvelope|extra|{';'.join(unknown)[:50]}", where=where,
+                  message=f"SgxEnvelope.__init__ decides on `{'`, `'.join(unknown)[:100]}`: a genuine envelope could be refused")
+        if unknown:
+            continue
+        # the constructor calls, in order (whether their result goes to a local first or straight into the attribute)
+        calls = []
+
+        def rb(e_, lf=lf):
+            # effect values already carry the store of their moment; only the opaque bindings (results of calls) remain to be spelled out
+            for _ in range(8):
+                nm_ = {x.id for x in ast.walk(e_) if isinstance(x, ast.Name)}
+                hit = {k: v for k, v in lf.bind.items() if k in nm_}
+                if not hit:
+                    break
+                e_ = subst(e_, hit)
+            return e_
+        for k_, st_, v_ in lf.effects:
+            if k_ in ("assign", "expr") and isinstance(v_, ast.Call) and call_name(v_) in ("__init__", "SgxQeAuthData", "SgxQeCertData"):
+                calls.append((call_name(v_), rb(v_)))
+        kinds = [c[0] for c in calls]
+        run.check("R3e", kinds == ["__init__", "SgxQeAuthData", "SgxQeCertData"], "fixed part, then authentication data, then certification data", key="SgxEnvelope|order", where=where,
+                  message=f"SgxEnvelope.__init__ parses {kinds}; expected the fixed part, the QE authentication data and the QE certification data, in this order")
+        if kinds != ["__init__", "SgxQeAuthData", "SgxQeCertData"]:
+            continue
+        qa_t, qc_t = _strip(norm(calls[1][1])), _strip(norm(calls[2][1]))
+        stores = {}
+        for k_, st_, v_ in lf.effects:
+            if k_ == "assign" and isinstance(st_.targets[0], ast.Attribute) and norm(st_.targets[0].value) == "self":
+                stores[st_.targets[0].attr] = _strip(norm(rb(v_)))
+
+        def K(e_):
+            t = _strip(norm(rb(e_) if isinstance(e_, ast.AST) else e_))
+            t = t.replace(qc_t, "QC").replace(qa_t, "QA")
+            if stores.get("qe_auth_data") == qa_t:
+                t = t.replace("self.qe_auth_data", "QA")
+            if stores.get("qe_cert_data") == qc_t:
+                t = t.replace("self.qe_cert_data", "QC")
+            return cs(t)
+        o1 = cs(f"{offp} + self.get_bytelength()")
+        o2 = cs(f"{offp} + self.get_bytelength() + QA.get_total_bytelength()")
+        o3 = cs(f"{offp} + self.get_bytelength() + QA.get_total_bytelength() + QC.get_total_bytelength()")
+        for (kind, c_), wo, what in zip(calls, (offp, o1, o2), ("the fixed part", "the QE authentication data", "the QE certification data")):
+            args = [K(a) for a in c_.args]
+            run.check("R3e", args == [envp, wo, litp], f"{what} is parsed at its offset", key=f"SgxEnvelope|offset|{kind}", where=where,
+                      message=f"SgxEnvelope.__init__ parses {what} with arguments {args}; expected ({envp}, {wo}, {litp}) (QA / QC: the parsed authentication / certification "
+                              "data): the fields would be read from the wrong place and the certificate built from them would not verify (or verify something the device did not sign)")
+        okt = "TAIL" in lf.pc and state["tail"] is not None and K(state["tail"]) == o3
+        if lf.kind == "raise":
+            run.check("R3e", okt and lf.pc["TAIL"] is False, "refused only when the tail differs from the custom message", key="SgxEnvelope|refusal", where=where,
+                      message=f"SgxEnvelope.__init__ raises under {sorted(lf.pc.items())} (tail taken at `{K(state['tail']) if state['tail'] is not None else None}`); expected only "
+                              f"for envelope[{o3}:] != {cmp_}")
+        else:
+            run.check("R3e", okt and lf.pc["TAIL"] is True and stores == {"qe_auth_data": qa_t, "qe_cert_data": qc_t, "custom_message": cmp_},
+                      "accepted with the tail equal to the custom message", key="SgxEnvelope|accept", where=where,
+                      message=f"SgxEnvelope.__init__ completes under {sorted(lf.pc.items())} (tail taken at `{K(state['tail']) if state['tail'] is not None else None}`) storing "
+                              f"{sorted(stores)}; expected envelope[{o3}:] == {cmp_} and the parts stored as qe_auth_data / qe_cert_data / custom_message")
+    run.floor("R3e", "paths of SgxEnvelope.__init__", n, 2)
+    # the variable-size parts
+    QA = P.cls("sgx.envelope.SgxQeAuthData")
+    qi = P.method(QA, "__init__")
+    gq = A.cfg(qi, QA)
+    vp, op_ = qi.params[1], qi.params[2]
+    want_d = cs(f"{vp}[{op_} + self.get_bytelength():{op_} + self.get_bytelength() + self.size]")
+
+    def qatom(e):
+        cp = cmp_parts(e)
+        if cp is None:
+            return None
+        l, op, r = cp
+        if op in ("==", "!=") and {cs(norm(resolve(l))), cs(norm(resolve(r)))} == {f"len({want_d})", "self.size"}:
+            return ("FULL", op == "==")
+        return None
+    nq = 0
+    Wq = Walker(A, qi, QA, qatom, max_leaves=16)
+    state["W"] = Wq
+    for lf in Wq.walk(gq.entry):
+        nq += 1
+        where = qi.loc(lf.node.ast) if lf.node.ast is not None else qi.loc()
+        unknown = sorted(k[1:] for k in lf.pc if isinstance(k, str) and k.startswith("?"))
+        stores = {st_.targets[0].attr: cs(norm(lf.deep(st_.value))) for k_, st_, v_ in lf.effects
+                  if k_ == "assign" and isinstance(st_.targets[0], ast.Attribute) and norm(st_.targets[0].value) == "self"}
+        sup = [[norm(a) for a in v_.args] for k_, st_, v_ in lf.effects if k_ == "expr" and isinstance(v_, ast.Call) and call_name(v_) == "__init__"]
+        if lf.kind == "raise":
+            ok = not unknown and lf.pc.get("FULL") is False
+            w = "a refusal only when fewer than `size` bytes are there"
+        else:
+            ok = not unknown and lf.pc.get("FULL") is True and stores == {"data": want_d} and sup == [[vp, op_, qi.params[3]]]
+            w = f"data = {want_d} stored after the header was parsed at the given offset, with all `size` bytes present"
+        run.check("R3e", ok, f"variable-size part: {w}", key=f"SgxQeAuthData|{lf.kind}", where=where,
+                  message=f"SgxQeAuthData.__init__ ends in `{lf.kind}` under {sorted(lf.pc.items())} with stores {stores}, header parse {sup}" + (f", deciding on {unknown}" if unknown else "")
+                          + f"; expected {w}")
+    run.floor("R3e", "paths of SgxQeAuthData.__init__", nq, 2)
+    tb = P.method(QA, "get_total_bytelength")
+    from sa.decide import return_values
+    rv = {cs(x) for x in return_values(A, tb, QA, Prov(A))}
+    run.check("R3e", rv == {cs("self.get_bytelength() + len(self.data)")}, "total size = header + data", key="SgxQeAuthData.get_total_bytelength", where=tb.loc(),
+              message=f"SgxQeAuthData.get_total_bytelength returns {sorted(rv)}; expected header size + len(data): the part after it would be parsed at the wrong offset")
+    QC = P.cls("sgx.envelope.SgxQeCertData")
+    run.check("R3e", QA in QC.mro() and QC.lookup("get_total_bytelength")[2] is tb, "the certification data is read the same way", key="SgxQeCertData|inherits", where=QC.module.relpath,
+              message="SgxQeCertData no longer reads its data through SgxQeAuthData's constructor / total size")
+
+
 def _endorsement_parse(run, PV, DA, gd, gg, se, gs):
     """R2t: which bytes of the BOLOS answers become the certificate fields (absolute offsets, whatever the way the answer is walked)."""
     P, A = run.P, run.A
@@ -640,6 +789,7 @@ def run(run):
                               "endorsement info fields", key="setup_endorsement_key|fields", where=fn.loc(r),
                               message=f"setup_endorsement_key returns {dict((k, norm(v)) for k, v in d.items())}")
     _endorsement_parse(run, PV, DA, gd, gg, se, gs)
+    _envelope_walk(run)
     roles = P.enum_members(P.cls("admin.dongle_admin._Role"))
     run.check("R2", roles["DEVICE"].value == 0x02 and roles["ENDORSEMENT"].value == 0xFF, "role bytes (device 0x02, endorsement 0xFF)",
               key="_Role|values", where="middleware/admin/dongle_admin.py", message=f"_Role values changed: {roles}")
